@@ -23,10 +23,26 @@ WANT = ("handle_put", "handle_delete", "handle_get", "with_commit_lock", "cas_de
         "read_frame", "read_magic", "write_frame", "write_magic", "short_hash")
 
 
+def source_fns(*files):
+    """names of all functions defined in the given src/bin/copia files (a refactor may add helpers)"""
+    import re as _re
+    out = set()
+    for f in files:
+        try:
+            src = open(env.REPO + "/src/bin/copia/" + f).read()
+        except OSError:
+            continue
+        src = src.split("#[cfg(test)]")[0]
+        out |= set(_re.findall(r"\bfn\s+(\w+)", src))
+    return out
+
+
 class Ctx:
     def __init__(self):
+        want = set(WANT) | source_fns("serve.rs", "wire.rs")
+
         def keep(n):
-            return n in WANT or n.startswith(tuple(w + "::" for w in WANT)) or n.startswith("wire::")
+            return n in want or n.startswith(tuple(w + "::" for w in want)) or n.startswith(("wire::", "serve::"))
         self.mir, self.mir_path, self.dump_s = env.load("bin", keep)
         self.idx = env.impl_index(self.mir)
         self.enums = env.source_enums()
@@ -148,7 +164,7 @@ def distinct_names(W, extra=()):
     different texts are different files"""
     ex = W.ex
     lockp = PJ(W.LOCKDIR, lit_id("commit.lock"))
-    facts = [PP(W.dst) != W.dst, lockp != W.dst]
+    facts = [PP(W.dst) != W.dst, lockp != W.dst, PP(W.dst) != lockp]
     sufs = set()
     for e in fsmodels.effects(ex):
         for k in ("path", "to"):
@@ -257,6 +273,9 @@ def delete_obligations(ctx, R, prover, pid):
             conds.append(z3.Implies(rm["guard"], z3.And(rm["path"] == W.dst, _any(ok_reads))))
             conds.append(in_critical_section(W, rm))
         goals["removal-only-when-current-hash-equals-expected,-read-and-removal-in-one-critical-section"] = _all(conds)
+        goals["the-lock-file-is-only-opened,-locked-and-unlocked-(never-removed,-renamed-or-written)"] = _all(
+            z3.Implies(z3.And(e["guard"], z3.Or(e["path"] == lockp, *([e["to"] == lockp] if "to" in e else []))), z3.BoolVal(e["call"] in ("open-options", "lock", "unlock")))
+            for e in W.fs_effects())
         goals["at-most-one-removal-request"] = _all(z3.Not(z3.And(a["guard"], b["guard"])) for i, a in enumerate(removes) for b in removes[i + 1:])
         # reply tells the truth: deleted <=> a removal was requested <=> CAS equal; on conflict it carries the hash that was read
         rep = []
@@ -362,6 +381,9 @@ def put_obligations(ctx, R, prover, pid, ncap=3):
         goals["every-file-system-request-is-on-the-joined-path,-its-staging/conflict-sibling,-its-parent-or-the-lock-file"] = _all(conds)
     # ---- C10: only complete, hash-verified bytes reach a served path, and only by rename
     if pid == "C10":
+        goals["the-staging-file-is-opened-truncating-(no-bytes-of-an-earlier,-unverified-write-survive-in-it)"] = _all(
+            z3.Implies(z3.And(e["guard"], e["path"] == tmp), z3.And(e["flags"]["truncate"], e["flags"]["write"], z3.Not(e["flags"]["append"])))
+            for e in creates if "flags" in e)
         goals["content-is-written-only-to-the-staging-file"] = z3.And(
             _all(z3.Implies(e["guard"], e["path"] == tmp) for e in writes),
             _all(z3.Implies(e["guard"], z3.Or(e["path"] == tmp, e["path"] == lockp)) for e in creates))
@@ -403,6 +425,9 @@ def put_obligations(ctx, R, prover, pid, ncap=3):
             conds.append(z3.Implies(z3.And(r["guard"], r["to"] == W.dst), _any(eq_reads)))
             conds.append(z3.Implies(z3.And(r["guard"], r["to"] != W.dst), z3.And(_any(ne_reads), _is_conflict_name(r["to"], W.dst, claimed_b))))
         goals["live-path-replaced-only-when-current==expected;-otherwise-the-bytes-go-to-a-conflict-sibling;-both-inside-the-critical-section-that-read-the-hash"] = _all(conds)
+        goals["the-lock-file-is-only-opened,-locked-and-unlocked-(never-removed,-renamed-or-written)"] = _all(
+            z3.Implies(z3.And(e["guard"], z3.Or(e["path"] == lockp, *([e["to"] == lockp] if "to" in e else []))), z3.BoolVal(e["call"] in ("open-options", "lock", "unlock")))
+            for e in W.fs_effects())
         goals["at-most-one-rename"] = _all(z3.Not(z3.And(a["guard"], b["guard"])) for i, a in enumerate(renames) for b in renames[i + 1:])
         goals["no-other-request-touches-the-live-path"] = _all(
             z3.Implies(z3.And(e["guard"], e["path"] == W.dst), False) for e in W.fs_effects()
@@ -595,11 +620,16 @@ def frame_obligations(ctx, R, prover, pid="C12"):
                 fam.append({"fn": "frame_read", "prefix": pre, "body_len": body, "fill": 0xf6, "chunk": chunk})
         fam.append({"fn": "frame_roundtrip", "chunk": 1})
         fam.append({"fn": "frame_roundtrip", "chunk": 5})
+        # end of input inside the 4-byte prefix / inside the body: must return (None or an error), not spin
+        for cut in (1, 2, 3):
+            fam.insert(0, {"fn": "frame_read", "prefix": [0, 0, 0, 9][:cut], "body_len": 0})
         for case in fam:
-            res_n = {p: hubnative.run_cases([case], p)[0] for p in ("dev", "release")}
+            res_n = {p: hubnative.run_cases([case], p, timeout=20)[0] for p in ("dev", "release")}
             bad = {}
             for p, r in res_n.items():
-                if "panic" in r or "crash" in r:
+                if "hang" in r:
+                    bad[p] = "read_frame does not return after its input is closed (%s)" % r["hang"]
+                elif "panic" in r or "crash" in r:
                     bad[p] = "panic: %s" % str(r)[:160]
                 elif case["fn"] == "frame_roundtrip":
                     if not r.get("equal"):
